@@ -24,9 +24,8 @@ pub fn from_strep_stub(s: &str) -> Affiliate {
             if long { mk("default (R)", "Default (R)", true) } else { mk("r", "R", true) }
         }
         "B (R)" | "b (R)" => mk("s", "S", true),
-        GLOBAL_AF_ID => {
-            if long { mk(GLOBAL_AF_ID, GLOBAL_AF_ID, false) } else { mk("_", "_", false) }
-        }
+        // the global pseudo-affiliate keeps its real id: is_global() compares with it
+        GLOBAL_AF_ID => mk(GLOBAL_AF_ID, "G", false),
         _ => {
             kani::assume(false);
             unreachable!()
